@@ -2,7 +2,6 @@ package main
 
 import (
 	"fmt"
-	"strconv"
 	"strings"
 
 	"github.com/elliotchance/gedcom/v39"
@@ -13,7 +12,9 @@ import (
 // operands of the comparison table: integers, signed and unsigned, leading dot / zero / plus,
 // exponents, numeric-looking text, plain text in both cases, empty
 var cmpOperands = []string{"", "0", "-0", "1", "-1", "+2", "2", ".5", "0.5", "-.5", "1e3", "1000", "-5", "-3", "-10", "-9", "10", "9", "010", "10.0",
-	"1.50", "1.5", "a", "A", "b", "B", "-a", "1a", "a1", "ann", "Ann", "-", "+", ".", "1.", "1 2"}
+	"1.50", "1.5", "a", "A", "b", "B", "-a", "1a", "a1", "ann", "Ann", "-", "+", ".", "1.", "1 2",
+	// backslashes are ordinary characters (a string constant is raw text between the quotes)
+	`a\tb`, `a\\b`, `\x41`, `\u00e9`, `a\`}
 
 func cmpDocText() string {
 	var sb strings.Builder
@@ -37,7 +38,7 @@ type cmpCase struct {
 func (c cmpCase) query() string {
 	k := c.Const
 	if c.Quoted {
-		k = strconv.Quote(k)
+		k = `"` + k + `"` // raw: the language has no escapes
 	}
 	return ".Nodes | Only(.Value " + c.Op + " " + k + ") | .Pointer"
 }
